@@ -314,6 +314,30 @@ fn check_un2(ctx: &mut Ctx, section: &str, outer: &str, inner: &str, a: &Val, sp
     out
 }
 
+/// `+` on two arrays builds a new array: changing the result afterwards must not change an operand
+/// (an operand that is empty, or the same variable on both sides, included)
+fn check_fresh(ctx: &mut Ctx, a: &Val, b: &Val, same_var: bool) -> Vec<Violation> {
+    let (la, lb) = match (a, b) {
+        (Val::Arr(x), Val::Arr(y)) => (x.len(), y.len()),
+        _ => return vec![],
+    };
+    let (text, expect) = if same_var {
+        (format!("let a = {}; let c = a + a; push(c, 99); c[0] = 77; [a, len(c)]", lit(a)), Val::Arr(vec![a.clone(), Val::Int(2 * la as i64 + 1)]))
+    } else {
+        (format!("let a = {}; let b = {}; let c = a + b; push(c, 99); c[0] = 77; [a, b, len(c)]", lit(a), lit(b)), Val::Arr(vec![a.clone(), b.clone(), Val::Int((la + lb) as i64 + 1)]))
+    };
+    ctx.case(hash_str(&text), la == 0 || lb == 0 || same_var);
+    ctx.class("fresh-result");
+    guard("fresh", "text", &text);
+    let mut out = Vec::new();
+    match outcome_of(&text) {
+        Ok(Ok(v)) if v.same(&expect) => {}
+        Ok(got) => out.push(Violation::new("fresh", "concatenation-aliases-an-operand", format!("`{}`: expected {}, got {}", text, expect.show(), show_got(&got)), json!({"fresh": true, "a": a, "b": b, "same_var": same_var}))),
+        Err(e) => out.push(Violation::new("fresh", if e.starts_with("PANIC") { e.split('|').next().unwrap_or("PANIC")[6..].to_string() } else { "harness".to_string() }, e, json!({"fresh": true, "a": a, "b": b, "same_var": same_var}))),
+    }
+    out
+}
+
 pub fn run(ctx: &mut Ctx) {
     {
         let pool = pool();
@@ -358,6 +382,34 @@ pub fn run(ctx: &mut Ctx) {
                             ctx.report(Violation::new("same-object", format!("shared-element:{}:{}", op, a.kind()), format!("`{}`: expected {}, got {}", text, ops::show_expect(&expect), show_got(&got)), json!({"op": op, "a": a, "same": true})));
                         }
                     }
+                }
+            }
+        }
+    }
+    {
+        let arrays = vec![
+            Val::Arr(vec![]),
+            Val::Arr(vec![Val::Int(1)]),
+            Val::Arr(vec![Val::Int(1), Val::Int(2)]),
+            Val::Arr(vec![Val::Str("s".into())]),
+            Val::Arr(vec![Val::Arr(vec![Val::Int(1)])]),
+            Val::Arr(vec![Val::Float(0.5), Val::Int(1), Val::Null]),
+        ];
+        let mut k = 0u64;
+        for a in &arrays {
+            for b in &arrays {
+                k += 1;
+                if !ctx.mine(k) {
+                    continue;
+                }
+                for v in check_fresh(ctx, a, b, false) {
+                    ctx.report(v);
+                }
+            }
+            k += 1;
+            if ctx.mine(k) {
+                for v in check_fresh(ctx, a, a, true) {
+                    ctx.report(v);
                 }
             }
         }
@@ -430,7 +482,10 @@ pub fn replay(section: &str, case: &Value, ctx: &mut Ctx) {
         Ok(v) => v,
         Err(_) => return ctx.infra("C09 replay: bad case"),
     };
-    let vs = if case.get("inner").is_some() {
+    let vs = if case.get("fresh").is_some() {
+        let b: Val = serde_json::from_value(case["b"].clone()).unwrap_or(Val::Null);
+        check_fresh(ctx, &a, &b, case["same_var"].as_bool().unwrap_or(false))
+    } else if case.get("inner").is_some() {
         check_un2(ctx, section, case["op"].as_str().unwrap_or("-"), case["inner"].as_str().unwrap_or("-"), &a, case["spaced"].as_bool().unwrap_or(false))
     } else if case.get("same").is_some() {
         check_same(ctx, section, case["op"].as_str().unwrap_or("=="), &a)
